@@ -8,23 +8,24 @@
 (* single exact overflow set, conservation against running totals of the ops).  *)
 EXTENDS CardModel, TraceKit, FiniteSetsExt
 
-VARIABLES l, cfg, tab, fm, ss, fed
-vars == <<l, cfg, tab, fm, ss, fed>>
+VARIABLES l, cfg, tab, fm, ss, fed, skip
+vars == <<l, cfg, tab, fm, ss, fed, skip>>
 
 NoCfg == [limit |-> 0, temp |-> "delta", insts |-> <<>>, views |-> <<>>]
-Init == l = 1 /\ cfg = NoCfg /\ tab = <<>> /\ fm = <<>> /\ ss = <<>> /\ fed = <<>>
+Init == l = 1 /\ cfg = NoCfg /\ tab = <<>> /\ fm = <<>> /\ ss = <<>> /\ fed = <<>> /\ skip = FALSE
 
 TSetup == /\ l <= Len(Trace) /\ Trace[l].ev = "Setup"
           /\ cfg' = Trace[l].cfg
-          /\ tab' = Table(cfg')
-          /\ fm' = FeedMap(cfg', tab')
+          /\ skip' = ~InDomain(cfg')
+          /\ tab' = IF skip' THEN <<>> ELSE Table(cfg')
+          /\ fm' = IF skip' THEN <<>> ELSE FeedMap(cfg', tab')
           /\ ss' = [t \in 1..Len(tab') |-> NewAgg]
           /\ fed' = [t \in 1..Len(tab') |-> [n |-> 0, s |-> 0]]
-          /\ (~ConflictFree(cfg') => Viol([line |-> l, sc |-> Trace[l].sc, kind |-> "domain"]))
+          /\ (skip' => PrintT("SKIP " \o ToJson([line |-> l, sc |-> Trace[l].sc])))
           /\ l' = l + 1
 
 (* observation as sets; a repeated metric or a repeated point makes it differ from any model value *)
-ObsMetric(g) == [name |-> g.name, num |-> g.num, agg |-> g.agg, temp |-> g.temp, mono |-> g.mono, pts |-> Rng(g.pts)]
+ObsMetric(g) == [name |-> g.name, desc |-> g.desc, unit |-> g.unit, sn |-> g.sn, sv |-> g.sv, su |-> g.su, num |-> g.num, agg |-> g.agg, temp |-> g.temp, mono |-> g.mono, pts |-> Rng(g.pts)]
 ObsSet(obs) == {ObsMetric(obs[j]) : j \in 1..Len(obs)}
 NoDup(obs) == /\ Cardinality(ObsSet(obs)) = Len(obs)
               /\ \A j \in 1..Len(obs) : Cardinality(Rng(obs[j].pts)) = Len(obs[j].pts)
@@ -41,7 +42,7 @@ BoundObs(obs) == \A j \in 1..Len(obs) :
    /\ Cardinality({x \in 1..Len(obs[j].pts) : obs[j].pts[x].ovf}) <= (IF cfg.limit > 0 THEN 1 ELSE 0)
 ConservedObs(obs, f) == \A t \in 1..Len(tab) :
    LET m == Mode(tab[t].agg, tab[t].kind)
-       G == {j \in 1..Len(obs) : obs[j].name = tab[t].name /\ obs[j].num = tab[t].num /\ obs[j].agg = tab[t].agg}
+       G == {j \in 1..Len(obs) : MKey(obs[j]) = RKey(tab[t])}
        tot(fld) == MapThenSumSet(LAMBDA j : MapThenSumSet(LAMBDA x : obs[j].pts[x][fld], 1..Len(obs[j].pts)), G)
    IN /\ (m = "drop" => G = {})
       /\ (m # "drop" /\ f[t].n = 0 => G = {})
@@ -49,7 +50,7 @@ ConservedObs(obs, f) == \A t \in 1..Len(tab) :
       /\ (m = "hist" => tot("n") = f[t].n)
       /\ ((m = "sum" \/ (m = "psum" /\ cfg.temp = "cumulative") \/ (m = "hist" /\ HasSum(tab[t].kind))) => tot("s") = f[t].s)
 
-TCycle == /\ l <= Len(Trace) /\ Trace[l].ev = "Cycle"
+TCycle == /\ l <= Len(Trace) /\ Trace[l].ev = "Cycle" /\ ~skip
           /\ LET ops == Trace[l].ops
                  obs == Trace[l].obs
                  m == ApplyAll(cfg, tab, fm, ss, ops)
@@ -61,11 +62,14 @@ TCycle == /\ l <= Len(Trace) /\ Trace[l].ev = "Cycle"
                       Viol([line |-> l, sc |-> Trace[l].sc, kind |-> "state", want |-> want, got |-> obs]))
                 /\ (~BoundObs(obs) => Viol([line |-> l, sc |-> Trace[l].sc, kind |-> "bound", got |-> obs]))
                 /\ (~ConservedObs(obs, f) => Viol([line |-> l, sc |-> Trace[l].sc, kind |-> "conserve", fed |-> f, got |-> obs]))
-          /\ l' = l + 1 /\ UNCHANGED <<cfg, tab, fm>>
+          /\ l' = l + 1 /\ UNCHANGED <<cfg, tab, fm, skip>>
+
+TSkipped == /\ l <= Len(Trace) /\ Trace[l].ev = "Cycle" /\ skip
+            /\ l' = l + 1 /\ UNCHANGED <<cfg, tab, fm, ss, fed, skip>>
 
 TDone == l = Len(Trace) + 1 /\ Accepted(l) /\ UNCHANGED vars
 
-Next == TSetup \/ TCycle \/ TDone
+Next == TSetup \/ TCycle \/ TSkipped \/ TDone
 Spec == Init /\ [][Next]_vars
 
 (* the model-side statement holds at every step of every real trace *)
